@@ -28,9 +28,10 @@ LIMITS = (0, 1, 2, 3, 50, 500, 1199, 1200, 1201, 4000, 20000)
 OPS = {"write": 10, "fin": 3, "reset": 2.0, "stop": 1.0, "ping": 0.5, "key_update": 0.3, "change_cid": 0.3}
 PROFILES = {
     "tiny": {"faults": ("drop", "dup", "delay", "blackout", "timer-late"), "small_limits": 0.9,
-             "limit_values": LIMITS, "op_weights": OPS, "max_ops": 20},
+             "limit_values": LIMITS, "op_weights": OPS, "max_ops": 20, "split_stream_limits": 0.4},
     "streams": {"faults": ("drop", "dup", "delay"), "small_limits": 0.5, "limit_values": LIMITS,
-                "small_stream_limits": 0.8, "max_streams_per_kind": 6, "op_weights": OPS, "max_ops": 24},
+                "small_stream_limits": 0.8, "max_streams_per_kind": 6, "op_weights": OPS, "max_ops": 24,
+                "split_stream_limits": 0.4},
     "fault_free": {"fault_free": True, "small_limits": 0.9, "limit_values": LIMITS, "small_stream_limits": 0.5,
                    "op_weights": OPS, "max_ops": 20},
 }
@@ -52,6 +53,9 @@ class C06Liveness(Oracle):
                cfg["server_max_stream_data"]) < 1:
             return
         if cfg["client_max_streams"] != (128, 128) or cfg["server_max_streams"] != (128, 128):
+            return
+        if any(cfg[side + "_stream_data_split"] and min(cfg[side + "_stream_data_split"]) < 1
+               for side in ("client", "server")):
             return
         if any(e.terminated for e in sim.endpoints):
             return
